@@ -302,6 +302,51 @@ fn check_expression(ctx: &Ctx, t: &T) {
     }
 }
 
+/// (iv-b) abstraction of a *repeated* sub-expression: `C[E, E]` against `t = E ; C[t, t]`, where the
+/// two occurrences become one heap object. E ranges over containers with and without NaN inside,
+/// C over every comparison / membership / de-duplication context with two or three holes.
+fn check_repeated_subexpression(ctx: &Ctx) {
+    let es = [
+        "[0/0]", "{x: inf - inf}", "[[0/0], 1]", "{a: [0/0]}", "[1, 2]", "{a: 1}", "\"s\"", "[null]", "[1, null]", "[{a: 1}, 2]", "0/0", "[]", "{}", "x => x", "[x => x]",
+    ];
+    let contexts = [
+        "H .== H", "H .!= H", "H == H", "H != H", "[H] == [H]", "[H, 1] != [H, 1]", "{k: H} .== {k: H}", "[H, H] .== [H, H]", "H .< H", "H .<= H", "H .> H", "H .>= H", "H < H", "H <= H",
+        "ugt(H, H)", "ugte(H, H)", "ult(H, H)", "ulte(H, H)", "unique([H, H])", "len(unique([H, H, H]))", "includes([H], H)", "includes([1, H], H)", "sort([H, H])", "[H, H] via (v => v .== H)",
+        "[H, H] where (v => v .!= H)", "count_by([H, H], v => v .== H)", "H ?? H", "[H .== H, H .== H]", "if H .== H then 1 else 2", "(v => v .== H)(H)", "((a, b) => a .== b)(H, H)", "do {\n  u = H\n  return u .== H\n}",
+        "max(H, H)", "[...H, ...H]", "{...H, ...H}", "H[0] .== H[0]", "H.a .>= H.a", "to_string(H) == to_string(H)",
+    ];
+    let mut jobs: Vec<(String, String)> = vec![];
+    for e in es {
+        for c in contexts {
+            jobs.push((c.replace('H', &format!("({})", e)), format!("t = {}\n{}", e, c.replace('H', "t"))));
+        }
+    }
+    let outs: Vec<(Outcome, Outcome)> = par_map(&jobs, |(inline, abstracted)| {
+        let mut s1 = Session::new();
+        s1.sv_mode = true;
+        let a = s1.run(inline);
+        let mut s2 = Session::new();
+        s2.sv_mode = true;
+        let b = s2.run(abstracted);
+        (a, b)
+    });
+    for ((inline, abstracted), (a, b)) in jobs.iter().zip(outs.iter()) {
+        ctx.count(2);
+        ctx.nontrivial(inline);
+        ctx.outcome(if a.is_ok() { "repeated-subexpression-ok" } else { "repeated-subexpression-fails" });
+        if a.cmp_key() != b.cmp_key() {
+            ctx.violation(Violation {
+                kind: "let-abstraction".into(),
+                class: "repeated-subexpression".into(),
+                input: format!("{}  ==>  {}", inline, abstracted.replace('\n', " ; ")),
+                expected: a.cmp_key(),
+                observed: b.cmp_key(),
+                case: json!({"inline": inline, "abstracted": abstracted}),
+            });
+        }
+    }
+}
+
 /// Every script over the logged choice points with at most `max_dev` non-default answers.
 fn deviation_scripts(log: &[(usize, usize)], max_dev: usize) -> Vec<Vec<usize>> {
     let mut out: Vec<Vec<usize>> = vec![];
@@ -354,6 +399,14 @@ pub fn run(ctx: &Ctx, replay: Option<&J>) -> i32 {
             let (got, log) = observe_scripted(p, script.clone());
             println!("program:\n{}\nscript {:?} (choice points {:?})\nbaseline: {}\nobserved: {}", p, script, log, base, got);
             return if base == got { 0 } else { 1 };
+        }
+        if let (Some(i), Some(a)) = (c["inline"].as_str(), c["abstracted"].as_str()) {
+            let (mut s1, mut s2) = (Session::new(), Session::new());
+            s1.sv_mode = true;
+            s2.sv_mode = true;
+            let (x, y) = (s1.run(i), s2.run(a));
+            println!("inline: {}\n -> {}\nabstracted: {}\n -> {}", i, x.cmp_key(), a.replace('\n', " ; "), y.cmp_key());
+            return if x.cmp_key() == y.cmp_key() { 0 } else { 1 };
         }
         println!("{}", c);
         return 1;
@@ -478,6 +531,7 @@ pub fn run(ctx: &Ctx, replay: Option<&J>) -> i32 {
     }
     ctx.set("expressions", json!(exprs.len()));
     par_for_ctx(ctx, exprs.len(), |i| check_expression(ctx, &exprs[i]));
+    check_repeated_subexpression(ctx);
     // ---- (v) the real binary, fresh processes (repetition, not the deciding step)
     let reps = if thorough { 8 } else { 3 };
     let cli: Vec<Vec<String>> = par_map(&progs, |p| {
@@ -506,7 +560,7 @@ pub fn run(ctx: &Ctx, replay: Option<&J>) -> i32 {
     finish(
         ctx,
         "model_checking",
-        "states = histories of <= 2 earlier programs (35-program alphabet) and iteration-order answer scripts with <= 2 deviations at the choice points each program reaches (H1 seam: captured scopes and environments); transitions = one whole-program evaluation in a fresh session, observed as status + outputs JSON + all bindings and compared with the empty-history / default-order run; plus every generated expression (every kind, parent x child spines over shared list / record / string / function / number leaves, built-ins applied to shared values) evaluated twice with all earlier bindings re-checked, and let-abstraction of every assignment-free sub-expression; the real binary repeated in fresh processes; distinct = histories, (program, script) pairs and expressions",
+        "states = histories of <= 2 earlier programs (35-program alphabet) and iteration-order answer scripts with <= 2 deviations at the choice points each program reaches (H1 seam: captured scopes and environments); transitions = one whole-program evaluation in a fresh session, observed as status + outputs JSON + all bindings and compared with the empty-history / default-order run; plus every generated expression (every kind, parent x child spines over shared list / record / string / function / number leaves, built-ins applied to shared values) evaluated twice with all earlier bindings re-checked, let-abstraction of every assignment-free sub-expression, and abstraction of a repeated sub-expression (15 values incl. NaN-carrying containers x 38 two-/three-hole contexts: the occurrences become one heap object); the real binary repeated in fresh processes; distinct = histories, (program, script) pairs and expressions",
         true,
         Some((states, transitions, transitions)),
     )
